@@ -140,6 +140,8 @@ func Requests(full bool) []davtree.Req {
 					}
 				}
 				add(davtree.Req{Method: m, Path: s, Dest: d, DestForm: "url"})
+				// the same server under another spelling of its authority
+				add(davtree.Req{Method: m, Path: s, Dest: d, DestForm: []string{"url-upper", "url-port", "netpath"}[(len(s)+len(d)+len(m))%3]})
 				add(davtree.Req{Method: m, Path: s, Dest: d, DestForm: "slash"})
 				add(davtree.Req{Method: m, Path: s, Dest: d, DestForm: "relative"})
 			}
@@ -391,7 +393,7 @@ func RandReq(r *rand.Rand, t davtree.Tree, names []string) davtree.Req {
 	if r.Intn(2) == 0 {
 		m = "MOVE"
 	}
-	req := davtree.Req{Method: m, Path: p, Dest: pickPath(r, t, names), DestForm: []string{"path", "path", "url", "path", "dotseg", "dblslash", "updown"}[r.Intn(7)]}
+	req := davtree.Req{Method: m, Path: p, Dest: pickPath(r, t, names), DestForm: []string{"path", "path", "url", "path", "dotseg", "dblslash", "updown", "url-upper", "url-port", "netpath"}[r.Intn(10)]}
 	if r.Intn(8) == 0 {
 		req.PathForm = []string{"dotseg", "dblslash", "updown"}[r.Intn(3)]
 	}
@@ -458,6 +460,28 @@ func Histories(c *fw.Ctx, mon Monitors, n, steps int) {
 		var trace []davtree.Req
 		shapes := map[string]bool{}
 		for s := 0; s < steps; s++ {
+			if (hi+s)%9 == 4 {
+				// a listing or download whose client goes away after k bytes
+				// of the answer; the history goes on as if nothing had been
+				k := []int{0, 1, 100, 700, 5000}[(hi/3+s)%5]
+				m, p, d := "PROPFIND", "/", "infinity"
+				if (hi+s)%2 == 1 {
+					if files := t.Files(); len(files) > 0 {
+						m, p, d = "GET", files[(hi+s)%len(files)], ""
+					}
+				}
+				if ureq, err := BuildRequest(davtree.Req{Method: m, Path: p, Depth: d}); err == nil {
+					c.Journal(map[string]interface{}{"history": hi, "step": s, "undelivered": m + " " + p, "after_bytes": k})
+					panicked, pv, stack := e.ServeUndelivered(ureq, k)
+					c.JournalDone()
+					c.Observe("histories", "answers that could not be delivered ("+m+")", 1)
+					if panicked {
+						c.Report(m+"|undelivered-answer|panic|"+fw.PanicSite(stack), fmt.Sprintf("handler panicked while its answer could not be delivered: %v", pv),
+							map[string]interface{}{"history": hi, "trace": trace, "undelivered": m + " " + p, "after_bytes": k})
+						break
+					}
+				}
+			}
 			req := RandReq(r, t, names)
 			trace = append(trace, req)
 			preShape := t.Shape()
